@@ -7,7 +7,7 @@ import re
 ID = "C03"
 PROPS = "Props/C03.v"
 GEN = ["sm2", "sm2limbs"]
-COQ_TIMEOUT = 2400
+COQ_TIMEOUT = 5400
 LEGS = [
     {"driver": "c03", "runner": ("ec", "Extract/ExtractEC.v", "Ec_model")},
     {"driver": "c03w", "runner": ("ec", "Extract/ExtractEC.v", "Ec_model"), "tags": "verif"},
@@ -17,25 +17,39 @@ TECHNIQUE = ("Coq proofs over an executable model of sm2/p256.go and GenerateKey
              "(affine spec, Jacobian formula lemmas over any field by `field`, total PointAdd/Sub/Double, wNAF recoding, comb evaluation, "
              "table checked by vm_compute), constants re-read from the source by the translator; model tied to /repo by differential runs "
              "of the extracted model (black box: public API; white box: 9-limb functions through hooks) and a python affine oracle")
-LEVEL_TEXT = ("Theorems in Coq (Props/C03.v, 27): the generated parameters are those of GM/T 0003.5, G on the curve, RInverse*2^257 = 1, "
+LEVEL_TEXT = ("Theorems in Coq (Props/C03.v, 36): the generated parameters are those of GM/T 0003.5, G on the curve, RInverse*2^257 = 1, "
               "Zero31/Carry/Factor limb constants, the 2x15 comb table entries are [sum b_i 2^(64i+32h)]G; Jacobian doubling / mixed / full "
               "addition formulas as the code computes them represent the affine law over ANY field (incl. Z=0, P=-Q, equal-input cases); "
               "for ALL pairs of curve points incl. infinity (0,0), equal and opposite: Add/Double = group law; IsOnCurve = curve equation for all "
               "integers; for EVERY byte string k (any length, leading zeros, >= n): wNAF digits sum to OS2IP(k) mod n with odd digits |d|<=7, "
-              "ScalarMult P k = [k mod n]P, ScalarBaseMult k = [k mod n]G (no side condition: exceptional operands excluded by a base-2^32 "
-              "support argument), GenerateKey reads exactly 40 bytes, d = OS2IP mod (n-2) + 1 in [1,n-2], P = [d]G, error on short read. "
-              "Premises, explicit in each statement: prime p for inverses; SM2Facts (p, n prime, associativity, G of order n) for the "
-              "scalar multiplications and the table. The extracted model is run on the same inputs as /repo and every result compared.")
-LEVEL_NOTE = ("NOT proved: the 9-limb 28/29-bit Montgomery arithmetic (sm2P256Mul/Square/ReduceDegree/ReduceCarry/Add/Sub/FromBig): the model starts at "
-              "'limb vector X represents value(X)*RInverse mod p'; that each limb function commutes with this abstraction is tied only by the "
-              "white-box differential driver c03w (corner patterns 0/mask/max-after-add on every limb, values 0, +-1, p-1, non-canonical forms) "
-              "- this run found and reproduced the ReduceDegree borrow defect (fixed in /repo a3cb9c3; regression inputs in corpus/c03). "
-              "Primality of p and n, associativity of the chord-and-tangent law and the order of G are premises (SM2Facts), never assumed globally; "
-              "ScalarMult additionally needs [1]P..[6]P finite (true for every finite SM2 point, cofactor 1; proved for all [j]G). "
-              "big.Int (SetBytes, Mod, ModInverse incl. the z=0 case, Bit, BitLen, Rsh, Bytes) and io.ReadFull are modelled contracts. "
-              "Constant-time selection by masks is modelled as if-then-else; timing is out of scope.")
+              "ScalarMult P k = [k mod n]P, ScalarBaseMult k = [k mod n]G (no side condition), GenerateKey reads exactly 40 bytes, "
+              "d = OS2IP mod (n-2) + 1 in [1,n-2], P = [d]G, error on short read. "
+              "LIMB LAYER (the 9-limb 28/29-bit Montgomery code, translated MECHANICALLY from the Go AST on every run, explicit uint32/uint64 "
+              "wrap-around): for all operands within the bound invariant 'loose' (limb < 2^30 / 2^29) Add, Sub (+ReduceCarry, Zero31), the "
+              "schoolbook products, FromBig/ToBig and ReduceDegree (unpack, every path of both elimination-step shapes for every window within the "
+              "loop's bound invariant, repack) never wrap, return loose limbs, and compute a+b, a-b, a*b/R mod p; the old (pre-a3cb9c3) "
+              "elimination step is refuted on the D36 window; the limb functions commute with the abstraction sm2P256ToBig, so straight-line "
+              "programs over them (PointDouble instantiated) refine the F_p-level model the point theorems are about. "
+              "Premises, explicit in each statement: prime p for inverses; SM2Facts (p, n prime, associativity, G of order n) for the scalar "
+              "multiplications and the table. The extracted models (F_p level and limb level) are run on the same inputs as /repo; limb results "
+              "must agree word for word.")
+LEVEL_NOTE = ("Proved at the limb level: sm2P256Add/Sub/ReduceCarry/Mul/Square/ReduceDegree/FromBig/ToBig for all loose operands (no assumption "
+              "about reachable values: the loop's bound invariant is proved). NOT proved at the limb level: the point functions as whole Go "
+              "functions on limbs - they are straight-line programs over the proved operations (general refinement theorem, instantiated for "
+              "sm2P256PointDouble only) plus big.Int comparisons and constant-time selections by masks (sm2P256CopyConditional, "
+              "sm2P256SelectAffinePoint/JacobianPoint), which are modelled as if-then-else at the F_p level and tied by the differential run; "
+              "sm2P256FromBig/ToBig are hand models of the math/big calls. The tie of Gen/P256Limbs.v to p256.go is the translator "
+              "(a partial evaluator over a small Go subset, ~600 lines, trusted) plus word-for-word equality with /repo on every white-box case. "
+              "Primality of p and n, associativity and the order of G are premises (SM2Facts), never assumed globally; ScalarMult additionally "
+              "needs [1]P..[6]P finite (true for every finite SM2 point, cofactor 1; proved for all [j]G). big.Int (SetBytes, Mod, ModInverse incl. "
+              "z=0, Bit, BitLen, Rsh, Bytes) and io.ReadFull are modelled contracts. Timing is out of scope. "
+              "Found while building: the ReduceDegree borrow defect D36 (fixed in /repo a3cb9c3; regression inputs in corpus/c03; "
+              "Props: C03_limb_D36_old_step_refuted).")
 TRUSTED_BASE = [
     "model coq/EC/P256Model.v written by hand from sm2/p256.go and sm2/sm2.go (GenerateKey); tied by the correspondence runs of this check",
+    "translator harness/cmd/gen/target_sm2limbs.go: partial evaluator over the Go AST of Add, Sub, ReduceCarry, Mul, Square, ReduceDegree "
+    "(constant loops unrolled, explicit wrap-around, data-dependent ifs as trees) -> coq/Gen/P256Limbs.v; tied by word-for-word equality of the "
+    "extracted limb model with /repo on every white-box limb case",
     "translator harness/cmd/gen/target_sm2.go (hex constants of initP256Sm2, limb tables as 8-digit hex words decoded by coq/EC/HexWords.v); "
     "cross-checked at run time: sha256 of the tables seen through the hooks = sha256 of the generated file (case TB)",
     "extraction: ExtrOcamlBasic (bool, option, unit, list, prod, sumbool, sumor, andb, orb) + ExtrOcamlZBigInt (positive, N, Z => Big_int_Z.big_int; "
@@ -50,7 +64,7 @@ ASSUMPTIONS = [
     "SM2Facts (premise of the ScalarMult / ScalarBaseMult / GenerateKey / table theorems): sm2_p and sm2_n are prime, the affine addition is associative on curve points, G is on the curve, [n]G = infinity, [k]G <> infinity for 0<k<n",
     "prime sm2_p (premise of Add_is_group_add, Double_is_group_double and the totality theorems)",
     "ScalarMult: the base point is a valid finite curve point with [1]P..[6]P finite (every finite point of the SM2 curve; proved for [j]G, 0<j<n)",
-    "the 9-limb Montgomery arithmetic commutes with fe_of_limbs (value * RInverse mod p): not proved, white-box differential only",
+    "limb operands are 'loose' (limb i < 2^30 even / < 2^29 odd): established by FromBig and preserved by every limb function (proved); the callers' data flow (which limb vectors reach which function) is covered by the general program-refinement theorem, instantiated for PointDouble",
     "math/big and io.ReadFull behave as documented (modelled); the random source is the list of bytes it delivers",
 ]
 RULE = (
